@@ -253,4 +253,40 @@ def khLookup (hm : Str → Str → Str → Option Bool) (d : Dict (Str × Str)) 
   | some v => .ok (some v)
   | none => khScan hm name d
 
+/-! ### objects and lookup HISTORIES
+
+  `SSHConfig.lookup` / `_lookup_fuzzy_match` and `SSHKnownHosts.lookup` store nothing on `self`, on the
+  class or in module globals (generated: `cfgLookupWrites = []`, `khLookupWrites = []` — every store on
+  the call graph below `lookup`, found in the AST).  A lookup is therefore a step that hands the object
+  back unchanged; a history of lookups on ONE object is the fold of that step. -/
+
+/-- one `SSHKnownHosts.lookup` call on the object whose `self.hosts` is `d`: (object afterwards, answer) -/
+def khStep (hm : Str → Str → Str → Option Bool) (d : Dict (Str × Str)) (name : Str) :
+    Dict (Str × Str) × Except Err (Option (Str × Str)) :=
+  (d, khLookup hm d name)
+
+/-- successive lookups on one SSHKnownHosts object -/
+def khHistory (hm : Str → Str → Str → Option Bool) (d : Dict (Str × Str)) (names : List Str) :
+    Dict (Str × Str) × List (Except Err (Option (Str × Str))) :=
+  names.foldl (fun acc n => let s := khStep hm acc.1 n; (s.1, acc.2 ++ [s.2])) (d, [])
+
+/-- one `SSHConfig.lookup` call on the object whose `self.hosts` is `d` -/
+def cfgStep (mc : List Char) (d : Dict Entry) (name : Str) : Dict Entry × Except Err Entry :=
+  (d, lookup mc d name)
+
+/-- successive lookups on one SSHConfig object -/
+def cfgHistory (mc : List Char) (d : Dict Entry) (names : List Str) :
+    Dict Entry × List (Except Err Entry) :=
+  names.foldl (fun acc n => let s := cfgStep mc acc.1 n; (s.1, acc.2 ++ [s.2])) (d, [])
+
+/-- `ssh_config_factory(path)` (ssh_config.py:526-533): `cache` = `SSHConfig._config_files`,
+    `parsed` = what the file at `path` parses to at the time of the call -/
+def factory (mc : List Char) (cache : Dict (Dict Entry)) (path : Str) (parsed : List Entry) :
+    Except Err (Dict (Dict Entry) × Dict Entry) :=
+  match cache.get? path with
+  | some d => .ok (cache, d)
+  | none => do
+    let d ← build mc parsed
+    .ok (cache.set path d, d)
+
 end Scrapli.SSHConfig
